@@ -211,6 +211,9 @@ class DataLoader(object):
         """
         self.close()
 
+        # Data cached from a previously opened file does not describe this one.
+        self.data = {}
+
         self.reader = MixedLogReader(input_file=path, save_index=save_index, ignore_index=ignore_index,
                                      return_bytes=True, return_message_index=True, num_threads=num_threads)
 
